@@ -8,6 +8,7 @@ import SpiceEv.Cmd.ScenarioRun
 import SpiceEv.Cmd.StrategyUtil
 import SpiceEv.Cmd.Util
 import SpiceEv.Cmd.GenCsv
+import SpiceEv.Cmd.Report
 import SpiceEv.Cmd.Events
 import SpiceEv.Cmd.Gen
 import SpiceEv.Cmd.Costs
@@ -23,6 +24,7 @@ def allHandlers : List (String × Handler) :=
   ++ Cmd.StrategyUtil.handlers
   ++ Cmd.Util.handlers
   ++ Cmd.GenCsv.handlers
+  ++ Cmd.Report.handlers
   ++ Cmd.Events.handlers
   ++ Cmd.Strategies.handlers
   ++ Cmd.Distributed.handlers
